@@ -182,11 +182,16 @@ func Mutate(seed []string, pairs bool) [][]string {
 // ChildMain: "<port>": run a 2-partition server; admin port = port+9 answering "dump\n" with
 // one line per partition (digest of the physical content).
 func ChildMain(spec string) {
-	port, _ := strconv.Atoi(spec)
+	sp := strings.SplitN(spec, ",", 2)
+	port, _ := strconv.Atoi(sp[0])
+	dir := ""
+	if len(sp) > 1 {
+		dir = sp[1]
+	}
 	// an allocation without bound must end this child, not the sandbox
 	lim := syscall.Rlimit{Cur: 12 << 30, Max: 12 << 30}
 	syscall.Setrlimit(syscall.RLIMIT_AS, &lim)
-	n, err := Start(port, 2, "")
+	n, err := Start(port, 2, dir)
 	if err != nil {
 		fmt.Println("CHILD-ERROR", err)
 		os.Exit(3)
@@ -289,7 +294,12 @@ func startChild(port int) (*child, error) {
 }
 
 func startChildOnce(port int) (*child, error) {
-	cmd := exec.Command(os.Args[0], "-child", strconv.Itoa(port))
+	// the data directory belongs to the parent: it is removed whatever way the child ends
+	dir, err := os.MkdirTemp("/dev/shm", "zrverif-srv-")
+	if err != nil {
+		return nil, err
+	}
+	cmd := exec.Command(os.Args[0], "-child", strconv.Itoa(port)+","+dir)
 	out, err := cmd.StdoutPipe()
 	if err != nil {
 		return nil, err
@@ -337,23 +347,27 @@ func startChildOnce(port int) (*child, error) {
 		if err != nil {
 			cmd.Process.Kill()
 			cmd.Wait()
+			os.RemoveAll(dir)
 			return nil, err
 		}
 	case <-time.After(60 * time.Second):
 		cmd.Process.Kill()
 		cmd.Wait()
+		os.RemoveAll(dir)
 		return nil, fmt.Errorf("child not ready after 60s")
 	}
-	c := &child{cmd: cmd, port: port}
+	c := &child{cmd: cmd, port: port, dir: dir}
 	if errFile != nil {
 		c.errPath = errFile.Name()
 	}
 	c.conn, err = Dial(port)
 	if err != nil {
+		c.stop()
 		return nil, err
 	}
 	c.admin, err = net.Dial("tcp", fmt.Sprintf("127.0.0.1:%d", port+9))
 	if err != nil {
+		c.stop()
 		return nil, err
 	}
 	c.abr = bufio.NewReader(c.admin)
@@ -455,6 +469,9 @@ func (c *child) stop() {
 	}
 	if c.errPath != "" {
 		os.Remove(c.errPath)
+	}
+	if c.dir != "" {
+		os.RemoveAll(c.dir)
 	}
 }
 
